@@ -1,3 +1,3 @@
 SPECIFICATION GenSpec
-CONSTANTS NR = 2 ND = 3
-INVARIANT Emit
+CONSTANTS NR = 2 ND = 3 RENK = 2
+INVARIANTS Emit LawRenum
